@@ -12,8 +12,9 @@ for P in "$@"; do
   if ! (cd "$D/repo" && git init -q . && git apply "$PA"); then echo "$P: PATCH DOES NOT APPLY"; rm -rf "$D"; continue; fi
   tag=$(echo "$P" | tr '/' '_')
   # warm the facts once (serialised anyway), then fan out
-  VERIF_REPO="$D/repo" ./check C01 --tier quick > "$D/C01.out" 2>&1; echo $? > "$D/C01.rc"
-  seq -w 2 20 | xargs -P 10 -I{} sh -c "VERIF_REPO=$D/repo ./check C{} --tier quick > $D/C{}.out 2>&1; echo \$? > $D/C{}.rc"
+  mkdir -p /tmp/neutral-keys
+  VERIF_DUMP_KEYS="/tmp/neutral-keys/$tag.C01.json" VERIF_REPO="$D/repo" ./check C01 --tier quick > "$D/C01.out" 2>&1; echo $? > "$D/C01.rc"
+  seq -w 2 20 | xargs -P 10 -I{} sh -c "VERIF_DUMP_KEYS=/tmp/neutral-keys/$tag.C{}.json VERIF_REPO=$D/repo ./check C{} --tier quick > $D/C{}.out 2>&1; echo \$? > $D/C{}.rc"
   bad=""
   for i in $(seq -w 1 20); do
     if [ "$(cat $D/C$i.rc)" != "0" ]; then
